@@ -133,7 +133,8 @@ class ADividedByB(SameArrayShapeMixin, Command):
         b = kwargs["B"].result
         self.validate_array_shapes([a, b], lineno=self.lineno)
 
-        return a / b
+        # Divide as masked arrays: two plain (unmasked) arrays would give infinity instead of a missing cell for x / 0
+        return numpy.ma.asarray(a) / b
 
 
 class Minimum(SameArrayShapeMixin, Command):
